@@ -262,7 +262,28 @@ def r19_6(run, model):
            witness="a closure capturing `x` and `x_`: the env struct declares field x twice and both variables rebind from it")
 
 
+def r19_8(run, model):
+    run.rule("R19.8", "variant struct names are unique in the whole emitted file: the clash count in variant_struct_name ranges over every "
+                      "enum of the program (all packages end up in one Go file), without a filter")
+    GOC = "crates/compiler/src/go/compile.rs"
+    f = model.fn("variant_struct_name", GOC)
+    loops = [l for l in S.find(f.body, "For") if "enums" in S.norm_ws(run.facts.text(GOC, l["iter"]["sp"]))]
+    if not loops:
+        raise AnalysisIncomplete("variant_struct_name: loop over the enums not found")
+    for l in loops:
+        it = S.norm_ws(run.facts.text(GOC, l["iter"]["sp"]))
+        skips = [x["k"] for x in S.walk_no_closures(l["body"]) if x["k"] == "Continue"]
+        filt = re.search(r"\.filter\(|\.take_while\(|\.skip_while\(", it) is not None
+        run.ob("R19.8", "variant_struct_name|clash count over all enums", not skips and not filt, site(GOC, l["sp"]),
+               f"for … in {it[:50]}; skips: {skips or 'none'}; filtered: {filt}",
+               witness="Lib::Color::Red and Main's Light::Red(string) both become `type Red struct`: duplicate declaration, ambiguous `case Red:`")
+
+
 def run(run, model):
+    run.try_rule(r19_8, model)
+    from rules import c07
+    run.rule("R19.9", "instance names are rendered by the injective type printer (shared with C07 R07.3)")
+    run.try_rule(c07.r07_3, model)
     run.try_rule(r19_6, model)
     from rules import c02
     run.rule("R19.7", "every Go name slot is mangled (shared with C02 R02.8): a selector written with the raw goml name may be a Go keyword")
